@@ -7,7 +7,7 @@ pat="${1:-}"
 fail=0
 # frozen snapshot of /repo: the mutants are derived from it, so /repo may be edited while the selftest runs
 BASE=$(mktemp -d /tmp/govc-selftest-base-XXXXXX)
-rsync -a --exclude .git /repo/ $BASE/
+rsync -a --exclude .git ${GOVC_BASE_REPO:-/repo}/ $BASE/
 trap 'rm -rf $BASE' EXIT
 for p in $V/selftest/mutants/*${pat}*.patch; do
   name=$(basename $p .patch)
